@@ -7,6 +7,7 @@ import (
 	"os"
 	"os/exec"
 	"path/filepath"
+	"regexp"
 	"strings"
 	"testing/fstest"
 	"time"
@@ -44,6 +45,11 @@ func goRefRun(src string) (out string, panicked bool, err error) {
 	}
 	return so.String(), false, nil
 }
+
+var intWord = regexp.MustCompile(`\bint\b`)
+
+// asInt32 gives the reference program goatlang's meaning of int (int32).
+func asInt32(src string) string { return intWord.ReplaceAllString(src, "int32") }
 
 // goatRun loads src as package main into a fresh VM and calls main.main.
 func goatRun(src string) (out string, err error) {
